@@ -15,6 +15,7 @@ package main
 import (
 	"bytes"
 	"encoding/json"
+	"errors"
 	"fmt"
 	"math/rand"
 	"strconv"
@@ -34,11 +35,27 @@ type poolRec struct {
 	Next *poolRec          `json:"next,omitempty"`
 }
 
+// failWriter fails after `after` bytes (0: at once) - a broken connection under a stream encoder
+type failWriter struct{ after int }
+
+var errBroken = errors.New("broken writer")
+
+func (w *failWriter) Write(p []byte) (int, error) {
+	if len(p) <= w.after {
+		w.after -= len(p)
+		return len(p), nil
+	}
+	n := w.after
+	w.after = 0
+	return n, errBroken
+}
+
 type poolCall struct {
 	kind int // 0 Marshal(string) 1 Marshal(rec) 2 ConfigStd.Marshal(rec) 3 MarshalIndent(rec) 4 Unmarshal(rec) 5 MarshalString 6 ConfigStd.Marshal(html string)
-	s    string
-	rec  *poolRec
-	doc  []byte
+	// 7 indenting StreamEncoder into a bytes.Buffer  8 encoder.EncodeIndented
+	s   string
+	rec *poolRec
+	doc []byte
 }
 
 var (
@@ -92,6 +109,26 @@ func poolDo(c *poolCall, std bool) string {
 		}
 		s, err := sonic.MarshalString(c.rec)
 		return s + errStr(err)
+	case 7:
+		var w bytes.Buffer
+		if std {
+			e := json.NewEncoder(&w)
+			e.SetEscapeHTML(false)
+			e.SetIndent(">", "  ")
+			err := e.Encode(c.rec)
+			return w.String() + errStr(err)
+		}
+		e := encoder.NewStreamEncoder(&w)
+		e.SetIndent(">", "  ")
+		err := e.Encode(c.rec)
+		return w.String() + errStr(err)
+	case 8:
+		if std {
+			b, err := json.MarshalIndent(c.rec, "", "\t")
+			return string(b) + errStr(err)
+		}
+		b, err := encoder.EncodeIndented(c.rec, "", "\t", 0)
+		return string(b) + errStr(err)
 	default:
 		if std {
 			b, err := json.Marshal(c.s)
@@ -102,9 +139,25 @@ func poolDo(c *poolCall, std bool) string {
 	}
 }
 
+// poolBrokenIndent: an indenting stream encoder whose writer fails (at once / in the middle)
+func poolBrokenIndent(r *rand.Rand) {
+	w := &failWriter{after: r.Intn(3) * r.Intn(200)}
+	if r.Intn(2) == 0 {
+		e := encoder.NewStreamEncoder(w)
+		e.SetIndent("", " ")
+		e.Encode(map[string][]string{"k": {"a", "b", strings.Repeat("c", r.Intn(300))}})
+	} else {
+		e := sonic.ConfigDefault.NewEncoder(w)
+		e.SetIndent("p", "\t")
+		e.Encode([]interface{}{1, "two", map[string]int{"three": 3}})
+	}
+}
+
 // poolDisturb makes one call that returns buffers to the pools through a less common path.
 func poolDisturb(r *rand.Rand) {
-	switch r.Intn(8) {
+	switch r.Intn(10) {
+	case 8, 9:
+		poolBrokenIndent(r)
 	case 0: // ValidateString post-pass rewriting invalid UTF-8, small output
 		poolCfgValidate.Marshal("ab\xffcd" + strings.Repeat("x", r.Intn(40)))
 	case 1: // the same through ConfigStd (EscapeHTML + ValidateString), both post-passes rewrite
@@ -130,19 +183,27 @@ func opPool(a []string) string {
 	seed, _ := strconv.ParseInt(a[0], 10, 64)
 	ng, _ := strconv.Atoi(a[1])
 	iters, _ := strconv.Atoi(a[2])
+	indentMode := len(a) > 3 && a[3] == "indent"
 	r := rand.New(rand.NewSource(seed))
 	// distinct, recognisable payloads per goroutine
 	calls := make([][]*poolCall, ng)
 	for g := range calls {
 		letter := string(rune('a' + g%26))
 		for k := 0; k < 4; k++ {
-			body := strings.Repeat(letter, 200+r.Intn(3000)) + strconv.Itoa(g)
+			n := 200 + r.Intn(3000)
+			if indentMode {
+				n = 2000 + r.Intn(30000)
+			}
+			body := strings.Repeat(letter, n) + strconv.Itoa(g)
 			rec := &poolRec{ID: g*10 + k, Name: letter + "-rec", Tags: []string{letter, body[:20]}, Attr: map[string]string{"k": letter}, Body: body}
 			if r.Intn(2) == 0 {
 				rec.Next = &poolRec{ID: -g, Body: strings.Repeat(strings.ToUpper(letter), 50+r.Intn(500))}
 			}
 			doc, _ := json.Marshal(rec)
-			kind := r.Intn(7)
+			kind := r.Intn(9)
+			if indentMode {
+				kind = []int{3, 7, 8}[r.Intn(3)]
+			}
 			c := &poolCall{kind: kind, s: body, rec: rec, doc: doc}
 			if kind == 6 {
 				c.s = "<" + body[:100+r.Intn(100)] + "&>"
@@ -196,8 +257,29 @@ func opPool(a []string) string {
 			}
 		}(g, gr)
 	}
+	// indent mode: meanwhile a connection keeps breaking under an indenting stream encoder
+	stop := make(chan struct{})
+	var dwg sync.WaitGroup
+	if indentMode {
+		dwg.Add(1)
+		dr := rand.New(rand.NewSource(seed ^ 0x5eed))
+		go func() {
+			defer dwg.Done()
+			<-start
+			for {
+				select {
+				case <-stop:
+					return
+				default:
+					poolBrokenIndent(dr)
+				}
+			}
+		}()
+	}
 	close(start)
 	wg.Wait()
+	close(stop)
+	dwg.Wait()
 	var conc []string
 	for g := range got {
 		conc = append(conc, got[g]...)
